@@ -676,3 +676,108 @@ fn test_ecm_small() {
         }
     }
 }
+
+// ---------------------------------------------------------------------------
+// Verification hooks (add-only, compiled only with `--cfg yamaquasi_verif`).
+// Thin public wrappers around the private 128-bit Montgomery type and curve
+// operations; arguments and results are plain u128 values.
+
+#[cfg(yamaquasi_verif)]
+pub mod verif {
+    use super::{Curve, ExtPoint, Point, M128};
+
+    /// Montgomery context for an odd modulus n < 2^128 as the module computes it:
+    /// `ninv` = -1/n mod 2^128 (mod 2^64 when n < 2^64), `r` = R mod n, `r2` = R^2 mod n
+    /// where R = 2^128 (R = 2^64 when n < 2^64).
+    #[derive(Clone, Copy, Debug)]
+    pub struct M128Ctx {
+        pub n: u128,
+        pub ninv: u128,
+        pub r: u128,
+        pub r2: u128,
+    }
+
+    pub fn m128_new(n: u128) -> M128Ctx {
+        let ninv = M128::inv_2adic(n);
+        let (r, r2) = M128::r_r2(n, ninv);
+        M128Ctx {
+            n,
+            ninv,
+            r: r.0,
+            r2: r2.0,
+        }
+    }
+
+    pub fn inv_2adic(n: u128) -> u128 {
+        M128::inv_2adic(n)
+    }
+
+    /// x (< n) -> xR mod n
+    pub fn to_mont(c: &M128Ctx, x: u128) -> u128 {
+        M128::mul(c.n, c.ninv, M128(x), M128(c.r2)).0
+    }
+
+    /// xR mod n -> x
+    pub fn from_mont(c: &M128Ctx, x: u128) -> u128 {
+        M128::mul(c.n, c.ninv, M128(x), M128(1)).0
+    }
+
+    pub fn add(c: &M128Ctx, x: u128, y: u128) -> u128 {
+        M128::add(c.n, M128(x), M128(y)).0
+    }
+
+    pub fn sub(c: &M128Ctx, x: u128, y: u128) -> u128 {
+        M128::sub(c.n, M128(x), M128(y)).0
+    }
+
+    /// Montgomery product xy/R mod n
+    pub fn mul(c: &M128Ctx, x: u128, y: u128) -> u128 {
+        M128::mul(c.n, c.ninv, M128(x), M128(y)).0
+    }
+
+    /// Projective point from Montgomery-form coordinates.
+    pub fn point_new(x: u128, y: u128, z: u128) -> Point {
+        Point(M128(x), M128(y), M128(z))
+    }
+
+    pub fn point_xyz(p: &Point) -> (u128, u128, u128) {
+        (p.0 .0, p.1 .0, p.2 .0)
+    }
+
+    pub fn extpoint_new(x: u128, y: u128, z: u128, t: u128) -> ExtPoint {
+        ExtPoint(M128(x), M128(y), M128(z), M128(t))
+    }
+
+    pub fn extpoint_xyzt(p: &ExtPoint) -> (u128, u128, u128, u128) {
+        (p.0 .0, p.1 .0, p.2 .0, p.3 .0)
+    }
+
+    pub fn extpoint_proj(p: &ExtPoint) -> Point {
+        p.proj()
+    }
+
+    /// (n, ninv, one) of a curve.
+    pub fn curve_consts(c: &Curve) -> (u128, u128, u128) {
+        (c.n, c.ninv, c.one.0)
+    }
+
+    pub fn curve_add(c: &Curve, p: &ExtPoint, q: &ExtPoint) -> ExtPoint {
+        c.add(p, q)
+    }
+
+    pub fn curve_dbladd(c: &Curve, p: &Point, q: &ExtPoint) -> Point {
+        c.dbladd(p, q)
+    }
+
+    pub fn curve_double(c: &Curve, p: &Point) -> Point {
+        c.double(p)
+    }
+
+    pub fn curve_dblext(c: &Curve, p: &Point) -> ExtPoint {
+        c.dblext(p)
+    }
+
+    pub fn curve_is_valid(c: &Curve, p: &ExtPoint) -> bool {
+        c.is_valid(p)
+    }
+}
